@@ -97,6 +97,7 @@ type aggregate struct {
 	searchS       float64
 	workerWall    float64
 	raceBuild     bool
+	selfcheck     string
 }
 
 func newAggregate(prop, tier string, seed uint64) *aggregate {
@@ -283,6 +284,7 @@ func (a *aggregate) write(file, meta string) error {
 		"violating_runs":      a.nViolRuns,
 		"known_findings_matched": a.known,
 		"cross_process_runs":  a.crossRuns,
+		"determinism_selfcheck": a.selfcheck,
 		"exported_api":        map[string]any{"found": apiFound, "covered_by_catalogue_and_run": apiCovered, "not_covered": uncovered},
 		"instrumentation": map[string]any{
 			"library_sites": int(sitesLib.Next) - 1, "dependency_sites": int(sitesDep.Next) - vsimrt.SiteDepBase,
